@@ -122,6 +122,9 @@ type CertSpec struct {
 	SelfSign    bool   // ignore parent: self-signed
 	NoSKI       bool
 	ExtraExt    []pkix.Extension
+	// the issuer field is the parent's subject in another DER encoding (the RDNs in reverse order): byte-wise a different
+	// name, rendered as the same string by pkix.Name.String()
+	IssuerReencoded bool
 }
 
 type Issued struct {
@@ -203,9 +206,13 @@ func marshalKU(ku x509.KeyUsage) []byte {
 func twinOf(k *Key) *Key {
 	switch p := k.Priv.(type) {
 	case *rsa.PrivateKey:
-		id := fmt.Sprintf("rsa%d-1", p.N.BitLen())
+		bits := p.N.BitLen()
+		if bits != 1024 && bits != 2048 && bits != 3072 && bits != 4096 {
+			bits = 2048 // no second committed key of the odd sizes: any other RSA key is a twin for the purpose
+		}
+		id := fmt.Sprintf("rsa%d-1", bits)
 		if k.ID == id {
-			id = fmt.Sprintf("rsa%d-0", p.N.BitLen())
+			id = fmt.Sprintf("rsa%d-0", bits)
 		}
 		return getKey(id)
 	case *ecdsa.PrivateKey:
@@ -292,6 +299,29 @@ func issue(spec *CertSpec, parent *Issued) (*Issued, error) {
 	}
 	if spec.IssuerCN != "" && (parent == nil || spec.SelfSign) {
 		parentCert = &x509.Certificate{Subject: pkix.Name{CommonName: spec.IssuerCN, Organization: []string{"verif"}}, PublicKey: signer.Public()}
+	}
+	if spec.IssuerReencoded {
+		raw := parentCert.RawSubject
+		if len(raw) == 0 {
+			// self-signed: the subject as CreateCertificate will encode it
+			b, err := asn1.Marshal(tmpl.Subject.ToRDNSequence())
+			if err != nil {
+				return nil, err
+			}
+			raw = b
+		}
+		var rdns pkix.RDNSequence
+		if _, err := asn1.Unmarshal(raw, &rdns); err != nil {
+			return nil, err
+		}
+		for i, j := 0, len(rdns)-1; i < j; i, j = i+1, j-1 {
+			rdns[i], rdns[j] = rdns[j], rdns[i]
+		}
+		re, err := asn1.Marshal(rdns)
+		if err != nil {
+			return nil, err
+		}
+		parentCert = &x509.Certificate{RawSubject: re, PublicKey: signer.Public(), Subject: parentCert.Subject}
 	}
 	der, err := x509.CreateCertificate(rand.Reader, tmpl, parentCert, key.Priv.Public(), signer)
 	if err != nil {
